@@ -73,7 +73,7 @@ theorem groupby_hint_irrelevant (v : Variant) (k0 : KeyCol) (ks : List KeyCol) (
     rw [hspec]
     intro i j hij hj
     have := hsorted i j hij hj
-    rw [keyAt_data, keyAt_data, ← tupleLt_stacked (k0 :: ks) hf j i,
+    rw [keyAt_data, keyAt_data, ← tupleLt_stacked n (k0 :: ks) hrect hf j i hj (by omega),
       ← keyAt_stacked (k0 :: ks) n j hrect hj, ← keyAt_stacked (k0 :: ks) n i hrect (by omega)] at this
     simpa using this
   subst hbt
